@@ -357,8 +357,8 @@ def _run_own(ck):
     keys = [k for k in facts['fns'] if k.startswith('decompose::') and (k.split('::')[1].startswith(('replace_', 'apply_')) or k.split('::')[1] in ('reverse_pivot', 'cut_spider'))]
     rs = redge.raw_sites(facts, keys)
     for i, (key, c, just, detail) in enumerate(rs):
-        ck.ob('R-EDGE', '%s/%s-%d' % (key, hir.callee(c).rsplit('::', 1)[1], i), just is not None, ck.site(key, c),
-              'raw edge insertion `%s` between two vertices of the host graph: %s (an existing edge makes the back ends inconsistent; use add_edge_smart)' % (hir.pp(c)[:60], detail))
+        ck.ob3('R-EDGE', '%s/%s-%d' % (key, hir.callee(c).rsplit('::', 1)[1], i), redge.verdict(just, detail), ck.site(key, c),
+               'raw edge insertion `%s` between two vertices of the host graph: %s (an existing edge makes the back ends inconsistent; use add_edge_smart)' % (hir.pp(c)[:60], detail.replace('UNRECOGNISED: ', '')))
     ck.floor('R-EDGE', len(rs), 10)
     ck.floor('R-EDGE-bodies', len(keys), 27)
     # ---- D5
